@@ -2,6 +2,7 @@ import ParryModel.Field
 import ParryModel.C12.Model
 import ParryModel.C12.Theorems2
 import ParryModel.C12.Theorems3
+import ParryModel.C12.Theorems4
 import Mathlib.Analysis.Real.Sqrt
 /-!
 # C12 theorems (first pass): the argmax primitive of the hull algorithms, and certificate soundness.
@@ -560,6 +561,59 @@ theorem convexHull2Idx_none_iff_degenerate (hsq : LawfulSqrt sq) (negMax eps100 
   · intro hnone
     unfold convexHull2Idx
     rw [hnone]
+
+/-- **the returned polygon, edge by edge** (lawful `sqrt`, `eps100 ≥ 0`, coordinates inside the `±MAX` sentinel): when
+`convex_hull2_idx` returns `idx`, the final walk has gone once around a cycle of `m = idx.length ≤ segments.len()` pairwise
+distinct facets, all valid, and the polygon's `t`-th edge `(idx[t], idx[(t+1) % m])` IS the `t`-th visited facet
+`(g.p0, g.p1)`. So every edge of the output carries the invariants proved for facets: its end points are input points that
+were extreme when created (`hull_vertices_extreme`), its normal is the right-hand normal of the edge
+(`hullLoop_normals_consistent`), it has non-zero length, and no input point attributed to it is still waiting more than
+`100·eps` outside (`final_valid_facets_visible_empty`). -/
+theorem convexHull2Idx_output_is_facet_cycle (hsq : LawfulSqrt sq) (negMax eps100 : K) (h0 : 0 ≤ eps100) (pts : Array (V2 K))
+    (hsent : ∀ (i : Nat) (p : V2 K), pts[i]? = some p → negMax < p.x ∧ negMax < -p.x ∧ negMax < p.y ∧ negMax < -p.y)
+    (idx : List Nat) (h : @convexHull2Idx K (fieldNum K sq) negMax eps100 pts = some idx) :
+    ∃ (st0 : HullState K) (first m : Nat), @initialPolyline K (fieldNum K sq) negMax eps100 pts = some st0 ∧
+      0 < m ∧ m ≤ (@hullLoop K (fieldNum K sq) negMax eps100 pts (2 * pts.size + 8) 0 st0).segs.size ∧ idx.length = m ∧
+      (∀ a b, a < m → b < m →
+        nxtIter (@hullLoop K (fieldNum K sq) negMax eps100 pts (2 * pts.size + 8) 0 st0).segs a first =
+        nxtIter (@hullLoop K (fieldNum K sq) negMax eps100 pts (2 * pts.size + 8) 0 st0).segs b first → a = b) ∧
+      ∀ t, t < m → ∃ g : SegFacet K,
+        (@hullLoop K (fieldNum K sq) negMax eps100 pts (2 * pts.size + 8) 0 st0).segs[
+          nxtIter (@hullLoop K (fieldNum K sq) negMax eps100 pts (2 * pts.size + 8) 0 st0).segs t first]? = some g ∧
+        g.valid = true ∧ idx[t]? = some g.p0 ∧ idx[(t + 1) % m]? = some g.p1 := by
+  unfold convexHull2Idx at h
+  cases hi : @initialPolyline K (fieldNum K sq) negMax eps100 pts with
+  | none => rw [hi] at h; cases h
+  | some st0 =>
+    rw [hi] at h
+    simp only at h
+    obtain ⟨p1, p2, hsz, hp1, hp2, hne, hst⟩ := @initialPolyline_eq_some K (fieldNum K sq) negMax eps100 pts st0 hi
+    rw [@pickP2_eq K (fieldNum K sq)] at hp2
+    subst hp2
+    obtain ⟨pa, pb, ha, hb, hd⟩ := initial_positions_differ sq negMax pts hsent hsz p1 hp1 hne
+    have hv1 := new_valid_of_ne sq hsq pts _ _ pa pb ha hb hd
+    have hv2 := new_valid_of_ne sq hsq pts _ _ pb pa hb ha (hd.imp Ne.symm Ne.symm)
+    have hval0 : ∀ (k : Nat) (g : SegFacet K), st0.segs[k]? = some g → g.valid = true := by
+      intro k g hg
+      rw [hst] at hg
+      rcases two_get _ _ k g hg with ⟨_, rfl⟩ | ⟨_, rfl⟩
+      · exact hv1
+      · exact hv2
+    obtain ⟨_, live, hch, hlv⟩ := hullLoop_live_valid sq hsq negMax eps100 h0 pts st0 (2 * pts.size + 8) 0 hi hval0
+    cases hfind : (List.range (@hullLoop K (fieldNum K sq) negMax eps100 pts (2 * pts.size + 8) 0 st0).segs.size).find?
+        (fun i => ((@hullLoop K (fieldNum K sq) negMax eps100 pts (2 * pts.size + 8) 0 st0).segs[i]?.map (·.valid)).getD false) with
+    | none => rw [hfind] at h; cases h
+    | some first =>
+      rw [hfind] at h
+      simp only [Option.some.injEq] at h
+      have hfv := List.find?_some hfind
+      have hlf : live first := by
+        cases hs : (@hullLoop K (fieldNum K sq) negMax eps100 pts (2 * pts.size + 8) 0 st0).segs[first]? with
+        | none => simp [hs] at hfv
+        | some g => exact hch.valid_live first g hs (by simpa [hs] using hfv)
+      obtain ⟨m, hm0, hms, hinj, hlen, hedges⟩ := hullWalk_edges_are_facets hch hlv first hlf
+      rw [h] at hlen hedges
+      exact ⟨st0, first, m, rfl, hm0, hms, hlen, hinj, hedges⟩
 
 /-! ### non-vacuity of the hypotheses of the field-level theorems (over `ℚ`, lawful instance `fieldNum ℚ id`) -/
 
